@@ -684,7 +684,7 @@ Proof.
       exists (VList out), sc2. split; [reflexivity|]. split; [exact To|exact E2].
   - (* call of another view *) intros G fn args vw ts t AV LEN LA ND NI _ Hargs _ Hbody.
     destruct Hargs as [k1 F1]. destruct Hbody as [k2 F2]. exists (S (Nat.max k1 k2)). intros n sc Hn E. fuel n m.
-    unfold eval_call. rewrite AV. replace (List.length (v_params vw)) with (List.length args) by congruence.
+    rewrite eval_call_eq. rewrite AV. replace (List.length (v_params vw)) with (List.length args) by congruence.
     rewrite Nat.eqb_refl. cbn [negb].
     destruct (F1 m sc ltac:(lia) E) as [avs [sc1 [-> [FA E1]]]]. cbn [bind].
     assert (EB : env_ok (combine (v_params vw) ts) (bind_params (v_params vw) avs [])).
